@@ -285,7 +285,12 @@ def case_enum(ctx, case):
     for n, v in labels:
         ctx.ev()
         want = outcome(lambda: sub.build(v))
-        for spelled in (n, getattr(d, n)):
+        at = outcome(lambda: getattr(d, n))
+        # (with several labels for one number the object may carry another label of the same number: the table is one-to-one on decode)
+        if at[0] != "ok" or not (isinstance(at[1], str) and l2v.get(str(at[1])) == v and int(at[1]) == v):
+            ctx.violation("enum-attribute", "Enum.%s -> %r, expected a label object for the number %d" % (n, at, v), dict(case, built=tag(n)))
+            return
+        for spelled in (n, at[1]):
             if outcome(lambda: d.build(spelled)) != want:
                 ctx.violation("enum-build-label", "Enum.build(%r) != encoding of %d" % (spelled, v), dict(case, built=tag(n)))
     for unk in ("nosuchlabel", "", labels[0][0].upper() + "_x", labels[0][0] + " "):
@@ -650,7 +655,87 @@ def case_index(ctx, case):
     ctx.nontrivial("index", case)
 
 
-KINDS = {"const": case_const, "validator": case_validator, "enum": case_enum, "enumbig": case_enum_big, "flags": case_flags,
+def case_isolation(ctx, case):
+    """What parse returns belongs to the caller: editing it in place (the way a parsed header is patched before it is built
+    again) must not change what the construct accepts, returns or emits afterwards."""
+    import construct as C
+    from ..veq import norm
+    which = case["which"]
+    B = C.Byte
+    if which == "const-list":
+        d, enc, others = C.Const([1, 0], C.Array(2, B)), b"\x01\x00", [b"\x01\x05", b"\x00\x00"]
+    elif which == "const-listcontainer":
+        d, enc, others = C.Const(C.ListContainer([7, 8, 9]), C.Array(3, B)), b"\x07\x08\x09", [b"\x07\x08\x05"]
+    elif which == "const-dict":
+        d, enc, others = C.Const({"a": 1, "b": 2}, C.Struct("a" / B, "b" / B)), b"\x01\x02", [b"\x01\x05", b"\x05\x02"]
+    elif which == "const-container":
+        d, enc, others = C.Const(C.Container(a=1, b=C.ListContainer([2, 3])), C.Struct("a" / B, "b" / C.Array(2, B))), b"\x01\x02\x03", [b"\x01\x02\x05"]
+    elif which == "const-bytearray":
+        d, enc, others = C.Const(bytearray(b"MZ"), C.Bytes(2)), b"MZ", [b"AZ", b"MA"]
+    elif which == "const-enum":
+        d, enc, others = C.Const("a", C.Enum(B, a=1, b=2)), b"\x01", [b"\x02", b"\x00"]
+    elif which == "flags":
+        d, enc, others = C.FlagsEnum(B, r=1, w=2, x=4), None, []
+    else:
+        d, enc, others = C.Struct("sig" / C.Const([1, 2], C.Array(2, B)), "f" / C.FlagsEnum(B, r=1, w=2)), b"\x01\x02\x03", [b"\x01\x05\x03"]
+
+    def edit(v, depth=0):
+        """change the value in place, at every level"""
+        if isinstance(v, bytearray):
+            v[0] = 0x41
+        elif isinstance(v, list):
+            for x in v:
+                edit(x, depth + 1)
+            if v:
+                v[-1] = 5
+            v.append(99)
+        elif isinstance(v, dict):
+            for k in [k for k in v.keys() if not str(k).startswith("_")]:
+                x = v[k]
+                if isinstance(x, bool):
+                    v[k] = not x
+                elif isinstance(x, int):
+                    v[k] = 5
+                else:
+                    edit(x, depth + 1)
+            v["edited"] = 1
+    inputs = [enc] if enc is not None else [bytes([b]) for b in range(8)]
+    for pat in inputs:
+        ctx.ev()
+        r1 = outcome(lambda: d.parse(pat))
+        if r1[0] != "ok":
+            ctx.violation("isolation-parse-raises", "%s: parse(%s) -> %r" % (which, pat.hex(), r1), case)
+            return
+        first = norm(r1[1])
+        b1 = outcome(lambda: d.build(r1[1]))
+        if which == "const-enum" and not (isinstance(r1[1], str) and outcome(lambda: int(r1[1])) == ("ok", 1)):
+            ctx.violation("const-parse-returns-constant-not-parsed-value", "Const('a', Enum).parse returned %r: not the label object the Enum parsed (int() gives %r)" % (r1[1], outcome(lambda: int(r1[1]))), case)
+            return
+        edit(r1[1])
+        for rnd in (1, 2):
+            ctx.ev()
+            r2 = outcome(lambda: d.parse(pat))
+            if r2[0] != "ok" or norm(r2[1]) != first:
+                ctx.violation("parse-result-shared-with-construct:" + which.split("-")[0], "%s: parse(%s) returned %r at first; after that value was edited in place the same call gives %r" % (which, pat.hex(), first, r2), case)
+                return
+            b2 = outcome(lambda: d.build(r2[1]))
+            if b2 != b1:
+                ctx.violation("parse-result-shared-with-construct:build:" + which.split("-")[0], "%s: build of the parsed value gave %r, after an earlier result was edited %r" % (which, b1, b2), case)
+                return
+            if enc is not None and outcome(lambda: d.build(None if not which.startswith("struct") else {"f": r2[1]["f"]})) != ("ok", pat):
+                ctx.violation("parse-result-shared-with-construct:constant-changed", "%s: build from nothing no longer emits %s after a parse result was edited" % (which, pat.hex()), case)
+                return
+            for o in others:
+                ro = outcome(lambda: d.parse(o))
+                if ro[0] == "ok":
+                    ctx.violation("parse-result-shared-with-construct:accepts-other", "%s: parse(%s) accepted after a parse result was edited in place" % (which, o.hex()), case)
+                    return
+            edit(r2[1])
+    ctx.count("isolation_instances")
+    ctx.nontrivial("isolation", which)
+
+
+KINDS = {"isolation": case_isolation, "const": case_const, "validator": case_validator, "enum": case_enum, "enumbig": case_enum_big, "flags": case_flags,
          "mapping": case_mapping, "error": case_error, "index": case_index}
 
 
@@ -728,6 +813,8 @@ def gen_cases(ctx):
                 cases.append({"kind": "index", "form": form, "rep": rep_, "pred": pr})
     cases.append({"kind": "enumbig", "labels": [["one", 1], ["big", 2 ** 64]], "values": [tag(x) for x in big], "form": "Enum"})
     cases.append({"kind": "enumbig", "labels": [["one", 1]], "values": [tag(x) for x in big], "form": "FlagsEnum"})
+    for which in ("const-list", "const-listcontainer", "const-dict", "const-container", "const-bytearray", "const-enum", "flags", "struct-both"):
+        cases.append({"kind": "isolation", "which": which})
     # Error placements: singles, all ordered pairs, sampled triples
     for w in WRAPPERS:
         cases.append({"kind": "error", "wrappers": [w]})
